@@ -16,10 +16,11 @@ theorem isIdent_isName {s : Str} (h : isIdent s = true) : isName s = true := by 
 
 theorem fmtFormat_eq : (['{'] ++ ([] : Str) ++ ":{}}".toList) = fmtFormat := by decide
 
-theorem fstrCall_field (e' : Node) (spec : Str) :
+theorem fstrCall_field (e' : Node) (spec : Str) (hs : spec.all plainSpecChar = true) :
     fstrCall (.member (.str fmtFormat) sFormat) [(.pos, [], e'), (.pos, [], .str spec)]
       = .isF ((sfy e').map (fun t => [.t "{"] ++ t ++ (if spec.isEmpty then [] else [.t ":", .fspec spec]) ++ [.t "}"])) := by
   rw [fstrCall.eq_def]
+  simp only [hs, ↓reduceIte]
   simp
 
 theorem fstrCall_join (ps : List Node) (body : Option Toks) (h : fstrItems ps = some (true, body)) :
@@ -122,7 +123,7 @@ theorem sfy_desugar : (e : Node) → wf e = true → safe e = true → sfy (desu
       simpa [safeParts] using hg'
     subst hc
     have he : wf e = true := by simp [wfParts] at hw'; exact hw'.1
-    have hf := fstrCall_field (desugar e) spec
+    have hf := fstrCall_field (desugar e) spec hs
     rw [sfy_desugar e he hge] at hf
     simp only [desugar, desugarL, joinForm, formatCall, fmtFormat_eq, sfy, hf]
     simp [pr, prParts, pr_ffield_guard e spec hp hs hb]
@@ -232,7 +233,7 @@ theorem fstrItems_desugar : (parts : List Node) → wfParts parts = true → saf
           simpa [safeParts] using hg
         subst hc
         have ⟨he, hr⟩ : wf e = true ∧ wfParts rest = true := by simp [wfParts] at hw; exact ⟨hw.1.1, hw.2⟩
-        have hf := fstrCall_field (desugar e) spec
+        have hf := fstrCall_field (desugar e) spec hs
         rw [sfy_desugar e he hge] at hf
         simp only [desugarL, desugar, formatCall, fmtFormat_eq, fstrItems, hf, fstrItems_desugar rest hr hgr]
         simp [consPart, optAppend, prParts, pr_ffield_guard e spec hp hs hb, isFieldB]
